@@ -108,6 +108,9 @@ func (bw *BatchedWriter) startBatchWriter() {
 	bw.startStopMutex.Lock()
 	if !bw.running.Load() {
 		bw.running.Store(true)
+		// the WaitGroup must be incremented before the goroutine is started, otherwise
+		// StopBatchWriter could pass writeWg.Wait() before the writer has registered itself.
+		bw.writeWg.Add(1)
 		go bw.runBatchWriter()
 	}
 	bw.startStopMutex.Unlock()
@@ -162,8 +165,6 @@ func (bw *BatchedWriter) Flush() {
 
 // runBatchWriter collects objects in batches and persists them to the KVStore.
 func (bw *BatchedWriter) runBatchWriter() {
-	bw.writeWg.Add(1)
-
 	for bw.running.Load() || bw.scheduledCount.Load() != 0 {
 		batchedMutation, err := bw.store.Batched()
 		if err != nil {
